@@ -430,6 +430,7 @@ impl JoinReorder {
 
         // First, extract join conditions from the filter predicate
         self.extract_join_conditions(&filter.predicate, &mut all_conditions);
+        let filter_condition_count = all_conditions.len();
 
         // Then collect from the join tree
         let mut extra_join_filters: Vec<Expr> = Vec::new();
@@ -458,6 +459,25 @@ impl JoinReorder {
             self.rebuild_filter_without_join_conditions(&filter.predicate, &used_conditions);
 
         let mut plan = join_result;
+        // ON conditions of the flattened joins that did not become join edges
+        // (a side that resolves to no single relation, e.g. `r0.i1 = r2.i0`
+        // where r0 sits inside an opaque outer-join relation) must be
+        // re-applied too. Unused conditions that came from the filter predicate
+        // survive in `remaining_filter`; the join tree's own were dropped, so
+        // the join degraded to a cross product (same handling as
+        // `reorder_join_tree`'s remaining conditions).
+        for (idx, (l, r)) in all_conditions.iter().enumerate() {
+            if idx >= filter_condition_count && !used_conditions.contains(&idx) {
+                plan = LogicalPlan::Filter(crate::planner::FilterNode {
+                    input: Arc::new(plan),
+                    predicate: Expr::BinaryExpr {
+                        left: Box::new(l.clone()),
+                        op: BinaryOp::Eq,
+                        right: Box::new(r.clone()),
+                    },
+                });
+            }
+        }
         // Join-node filter expressions collected during flattening must be
         // re-applied — dropping them turns joins into cross products.
         for f in &extra_join_filters {
